@@ -76,8 +76,9 @@ class C09(Base):
                 style += "+for"
             slots.append((cfg, k, style))
         faults = {"obs": rng.choice((0.15, 0.3, 0.5)), "obs_before": 0.7}
+        kinds = ("is_exhausted",) * 4 + ("is_running",) * 3 + OBS_KINDS
         return Plan(slots, faults=faults, interleave=nslots > 1, overrun=3,
-                    conclude_obs=2)
+                    conclude_obs=2, obs_kinds=kinds)
 
     def check(self, w):
         for s in w.all_slots():
@@ -191,8 +192,10 @@ class C11(Base):
                 k = draw_passes(rng, cfg, 2)
             slots.append((cfg, k, "every"))
         faults = {"obs": rng.choice((0.2, 0.4)), "obs_before": 0.9}
+        kinds = ("uses:RAM", "uses:DISK") * 3 + ("uses:WORK", "uses:NONE") \
+            + OBS_KINDS
         return Plan(slots, faults=faults, interleave=nslots > 1, overrun=1,
-                    conclude_obs=4)
+                    conclude_obs=4, obs_kinds=kinds)
 
     def check(self, w):
         for s in w.all_slots():
